@@ -1,5 +1,6 @@
 import HedVerif.Driver.Util
 import HedVerif.Driver.Store
+import HedVerif.Model.SchemaBulk
 import Std.Data.HashMap
 import Std.Data.HashSet
 open Lean
@@ -57,6 +58,10 @@ def shortDistinctB (fold : Str → Str) (tags : List Schema.Name) : Bool := Id.r
     m := m.insert ks
   return true
 
+def parseForm (s : String) : Option Form :=
+  if s == "short_tag" || s == "short" then some .short
+  else if s == "long_tag" || s == "long" then some .long else none
+
 def handleIO (op : String) (j : Json) : Option (IO (Except String Json)) :=
   match op with
   | "c03.schema" => some do
@@ -72,6 +77,7 @@ def handleIO (op : String) (j : Json) : Option (IO (Except String Json)) :=
         pure (.ok (jobj [("tags", jnat tags.length), ("table", jnat v.table.length), ("wf", jbool (functionalTable v.table)),
                          ("treeClosed", jbool (treeClosedB (tags.map splitSlash))),
                          ("shortDistinct", jbool (shortDistinctB foldAscii (tags.map splitSlash))),
+                         ("cleanNames", jbool (cleanNamesB (tags.map splitSlash))),
                          ("dups", jarr (v.dups.map fun i => jstr (joinSlash (v.name i))))]))
   | "c03.find" => some do
       match (do pure (← getString j "schema", ← getStr j "text") : Except String _) with
@@ -80,6 +86,37 @@ def handleIO (op : String) (j : Json) : Option (IO (Except String Json)) :=
         match ← getSchema name with
         | none => pure (.error s!"schema {name} not installed")
         | some inst => pure (.ok (findJson inst text))
+  | "c03.convert" => some do
+      -- `df_util._convert_to_form(text, schema, form)` = `str(HedString(text, schema).get_as_form(form))`
+      match (do pure (← getString j "schema", ← getString j "form", ← getStr j "text") : Except String _) with
+      | .error e => pure (.error e)
+      | .ok (name, form, text) =>
+        match ← getSchema name, parseForm form with
+        | none, _ => pure (.error s!"schema {name} not installed")
+        | _, none => pure (.error s!"unknown form {form}")
+        | some inst, some f =>
+          pure (.ok (jobj [("out", jstr (convertText inst.vocab foldAscii inst.ns f text))]))
+  | "c03.convertdf" => some do
+      -- `df_util.convert_to_form(df, schema, form, columns)`; `columns` absent or null = None
+      match (do
+        let name ← getString j "schema"
+        let form ← getString j "form"
+        let names ← (← getArr j "names").mapM asStr
+        let cols ← (← getArr j "cols").mapM fun c => do (← asArr c).mapM asStr
+        let columns ← match j.getObjVal? "columns" with
+          | .ok (Json.arr a) => (a.toList.mapM asStr).map some
+          | _ => pure none
+        pure (name, form, names, cols, columns) : Except String _) with
+      | .error e => pure (.error e)
+      | .ok (name, form, names, cols, columns) =>
+        match ← getSchema name, parseForm form with
+        | none, _ => pure (.error s!"schema {name} not installed")
+        | _, none => pure (.error s!"unknown form {form}")
+        | some inst, some f =>
+          match convertFrame (convertText inst.vocab foldAscii inst.ns f) (names.zip cols) columns with
+          | .ok df => pure (.ok (jobj [("names", jarr (df.map fun c => jstr c.1)),
+                                       ("cols", jarr (df.map fun c => jarr (c.2.map jstr)))]))
+          | .error (.keyError c) => pure (.ok (jobj [("err", Json.str "KeyError"), ("column", jstr c)]))
   | _ => none
 
 def handle (_op : String) (_j : Json) : Option (Except String Json) := none
